@@ -12,7 +12,7 @@ LEAN_MODULES = ["EzdxfVerif.Props.C18"]
 DRIVER_DEPS = ["EzdxfVerif.Model.Render", "EzdxfVerif.Gen.RenderTables", "Drivers.Proto"]
 RULE = (
     "correspondence: seeded generator documents built through the public ezdxf API (LINE, POINT, LWPOLYLINE, SOLID, CIRCLE, "
-    "ATTDEF in blocks, INSERT with ATTRIBs; random layer tables with off/frozen/locked/no-plot/true-color/transparent layers and "
+    "ATTDEF in blocks, INSERT with ATTRIBs, EMPTY block definitions referenced before other entities; random layer tables with off/frozen/locked/no-plot/true-color/transparent layers and "
     "boundary ACI values, mixed-case and undefined layer references; BYLAYER/BYBLOCK/BYOBJECT/explicit ACI, true color, "
     "transparency, linetype, lineweight, invisible flag on every nesting level; nesting depth <= 4; INSERT translations, "
     "positive/negative/non-uniform scales, rotations by multiples of 90 degrees, extrusion (0,0,-1), block base points; "
@@ -21,7 +21,7 @@ RULE = (
     "Player.recordings() canonicalised (kind, #rrggbb[aa], pen, layer, linetype name, lineweight as fraction, coordinates rounded "
     "to the 2^-12 grid and required to be within 1e-6 of it; exception class for errors) vs. the Lean model's drawLayout on the "
     "same document, which must also end with the initial state stack. X2 spec: the same observation vs. Spec.flatten of the Lean "
-    "block tree (unfold) for every document without a reference that triggers finding F18. X3 reach: the model's validity "
+    "block tree (unfold) for every document ('no-tree' when a bad reference hides below an invisible INSERT). X3 reach: the model's validity "
     "predicate (hypothesis of draw_total) vs. a graph walk of the harness (acyclic and closed). "
     "non-trivial = the layout has a visible INSERT; distinct by hash of the request line. "
     "oracle O1: the real front end vs. an independent pure-Python transliteration of the specification (matrix product along the "
@@ -43,10 +43,9 @@ ASSUMPTIONS = [
     "Configuration(line_policy=SOLID, text_policy=IGNORE) for the correspondence stream (linetype pattern rendering and text pipelines are outside the model)",
 ]
 OPEN = [
-    "draw_eq_spec at full strength is FALSE of code and model (Insert.transform computes the scale factors of a rotated nested INSERT from the OCS axes, finding F18): nested_insert_counterexample; draw_eq_spec_partial carries the hypothesis that every nested Insert.transform is lawful (encoded in unfold); transformIns_lawful_unrotated / _uniform give sufficient conditions and draw_eq_spec_uniform discharges the hypothesis for uniformly scaled quarter-turn documents",
-    "BackendProperties.handle is not modelled (oracle O4 only; finding F19)",
-    "linetype pattern rendering, text/hatch/viewport pipelines, clipping (XCLIP), CTB overrides: not modelled",
-    "general rotation angles: oracle only",
+    "draw_eq_spec is proved at full strength for the modelled class: acyclic closed documents whose references are rotated by multiples of 90 degrees with non-zero scale factors (no uniformity hypothesis since fix 603b8b3fe); general rotation angles are oracle-only, and for them finding F20 (explode fall-back for sheared nested INSERTs drops the nested reference's state) remains",
+    "linetype pattern rendering, text/hatch/viewport pipelines, clipping (XCLIP), CTB overrides, MINSERT: not modelled",
+    "BackendProperties.handle is not modelled (oracle O4 only)",
 ]
 
 GRID = 4096
@@ -289,6 +288,19 @@ def gen_doc(rng, mode="quarter", depth=None):
             base = _pt(rng, 2) if rng.random() < 0.3 else (Fr(0), Fr(0))
             blocks.append({"name": name, "base": base, "ents": ents})
             by_level.setdefault(lvl, []).append(name)
+    # EMPTY block definitions and references to them (no attribs), placed anywhere - also first - in blocks and layouts:
+    # a reference that draws nothing must still leave the block-reference state as it found it
+    empties = []
+    if rng.random() < 0.45:
+        for k in range(rng.choice([1, 1, 2])):
+            name = f"Empty_{k}"
+            blocks.insert(rng.randrange(len(blocks) + 1), {"name": name, "base": (Fr(0), Fr(0)), "ents": []})
+            empties.append(name)
+        for b in blocks:
+            if b["name"] not in empties and rng.random() < 0.5:
+                e = gen_insert(rng, layer_names, True, _case_variant(rng, rng.choice(empties)), mode)
+                e["attribs"] = []
+                b["ents"].insert(rng.choice([0, 0, rng.randrange(len(b["ents"]) + 1)]), e)
     layouts = {}
     for lay in ("msp", "psp"):
         ents = []
@@ -298,6 +310,12 @@ def gen_doc(rng, mode="quarter", depth=None):
             lvl = depth - 1 if rng.random() < 0.7 else rng.randrange(depth)
             ents.append(gen_insert(rng, layer_names, False, rng.choice(by_level[lvl]), mode))
         rng.shuffle(ents)
+        if empties and rng.random() < 0.7:
+            e = gen_insert(rng, layer_names, False, rng.choice(empties), mode)
+            e["attribs"] = []
+            if rng.random() < 0.5:
+                e["layer"] = rng.choice(layer_names)  # often a hidden layer: later layer-0 content must not vanish
+            ents.insert(rng.choice([0, 0, rng.randrange(len(ents) + 1)]), e)
         layouts[lay] = ents
     zero = {"color": rng.choice([7, 7, 2, -7, 251, 255, 1]), "linetype": rng.choice(["Continuous", "DASHED"]),
             "lineweight": rng.choice([-3, 25, 35]), "true_color": 0x334455 if rng.random() < 0.1 else None}
@@ -329,6 +347,15 @@ def special_docs():
     docs.append(("byblock-chain", {"mode": "quarter", "layers": [LAYER_SPECS[0]], "zero": zero, "blocks": chain,
                                    "layouts": {"msp": [ins("C3", color=3, linetype="DASHED", lineweight=50, layer="Walls")],
                                                "psp": [ins("C3", color=0, linetype="BYBLOCK", lineweight=-2)]}}))
+    # reference to an EMPTY block before layer-0 / BYBLOCK content, at top level and as a sibling inside a block
+    docs.append(("empty-block", {"mode": "quarter", "layers": [LAYER_SPECS[0], LAYER_SPECS[2]], "zero": zero, "blocks": [
+        {"name": "EMPTY", "base": Z, "ents": []},
+        {"name": "PART", "base": Z, "ents": [ins("EMPTY", layer="Walls", color=3, lineweight=70),
+                                             line(Z, (Fr(1), Fr(1)), color=0, lineweight=-2)]}],
+        "layouts": {"msp": [line(Z, (Fr(5), Fr(0))), ins("EMPTY", layer="hidden_off"), line((Fr(0), Fr(1)), (Fr(5), Fr(1))),
+                            ins("PART", pos=(Fr(0), Fr(3)), layer="DOORS", color=4, lineweight=30),
+                            line((Fr(0), Fr(2)), (Fr(5), Fr(2)), color=0, linetype="BYBLOCK", lineweight=-2)],
+                    "psp": [ins("EMPTY", color=1), ins("PART", color=0), line(Z, (Fr(1), Fr(0)), color=0)]}}))
     # cycle and dangling reference
     docs.append(("cycle", {"mode": "quarter", "layers": [], "zero": zero, "blocks": [
         {"name": "A", "base": Z, "ents": [line(Z, (Fr(1), Fr(0))), ins("B")]},
@@ -770,14 +797,23 @@ def spec_flatten(desc, layout_name, layers, fg, export, aci_rgb, exact):
     return out
 
 
-def hazard(path):
-    """the known defect: an INSERT rotated by an angle that is not a multiple of 180 degrees below a non-uniformly scaled INSERT"""
-    nonuni = False
-    for e in path:
-        if nonuni and abs(math.sin(math.radians(e["rot"]))) > 1e-9:
-            return True
-        if abs(e["sx"]) != abs(e["sy"]):
-            nonuni = True
+def shear_fallback(path):
+    """remaining finding F20: the composed matrix of an INSERT below its ancestors is a shear (rotation that is not a multiple
+    of 90 degrees below a non-uniform scale): Insert.transform raises InsertTransformationError and
+    virtual_block_reference_entities falls back to exploding the nested INSERT, which drops its block-reference state"""
+    acc = IDENT
+    zero = (0.0, 0.0)
+    for j, e in enumerate(path):
+        m = insert_matrix(e, zero, False)
+        if j > 0:
+            a, b, c, d, _, _ = m.v
+            n0, n1 = math.hypot(a, b), math.hypot(c, d)
+            ux = acc.lin((a / n0, b / n0))
+            uy = acc.lin((c / n1, d / n1))
+            dot = (ux[0] * uy[0] + ux[1] * uy[1]) / (math.hypot(*ux) * math.hypot(*uy))
+            if abs(dot) > 1e-9:
+                return True
+        acc = m.then(acc)
     return False
 
 
@@ -799,8 +835,11 @@ def walk_paths(desc, layout_name):
     return out
 
 
-def doc_hazard(desc, layout_name):
-    return any(hazard(p) for p in walk_paths(desc, layout_name))
+def layout_fallback(desc, layout_name):
+    try:
+        return any(shear_fallback(p) for p in walk_paths(desc, layout_name))
+    except (RecursionError, KeyError):
+        return False
 
 
 # ====================================================================== streams
@@ -842,7 +881,7 @@ def desc_by_id(docid, rngkey):
 
 def correspond(ctx):
     cases_draw, cases_spec, cases_reach = [], [], []
-    nq = ctx.n(500, 6000)
+    nq = ctx.n(400, 6000)
     for docid, key, desc in doc_stream(ctx, [("quarter", nq), ("safe", nq // 2)]):
         doc = build(desc)
         combos = [("msp", False), ("msp", True), ("psp", False), ("psp", True)]
@@ -858,12 +897,12 @@ def correspond(ctx):
             cases_draw.append(("draw|" + body, resp, has_ins))
             if obs[0] == "ok":
                 try:
-                    hz = doc_hazard(desc, lay)
+                    walk_paths(desc, lay)
+                    tree = True
                 except (RecursionError, KeyError):
-                    hz = True  # cyclic / dangling reference below an invisible INSERT: no block tree
-                ctx.hist("X2 spec", "hazard(F18): skipped" if hz else "lawful")
-                if not hz:
-                    cases_spec.append(("spec|" + body, resp, has_ins))
+                    tree = False  # cyclic / dangling reference below an invisible INSERT: no block tree
+                ctx.hist("X2 spec", "block tree" if tree else "no block tree (draw ok: bad reference is invisible)")
+                cases_spec.append(("spec|" + body, resp if tree else "no-tree", has_ins))
         # validity predicate of draw_total vs. the audit verdict
         for lay in ("msp", "psp"):
             body = encode(desc, doc, lay, False)
@@ -901,25 +940,28 @@ def check_doc(ctx, docid, key, desc, lay, export, exact, stream="O1 spec"):
     if rctx._saved_states or rctx.current_block_reference_properties is not None:
         ctx.fail(f"stack/{docid}/{lay}", f"block reference state stack not restored after draw_layout ({docid}, {lay})", rep)
     spec = spec_flatten(desc, lay, read_layers(doc), FG[lay], export, aci_table(), exact)
+    fb = "" if exact else ("explode-fallback/" if layout_fallback(desc, lay) else "")
+    if fb:
+        ctx.hist(stream, "layout with a sheared nested INSERT (F20)")
     if len(got) != len(spec) or [g["kind"] for g in got] != [s["kind"] for s in spec]:
-        ctx.fail(f"count/{docid}/{lay}/{int(export)}",
+        ctx.fail(f"{fb}count/{docid}/{lay}/{int(export)}",
                  f"{docid} {lay} export={export}: drawn primitives {[g['kind'] for g in got]} expected {[s['kind'] for s in spec]}", rep)
         return None
     for i, (g, s) in enumerate(zip(got, spec)):
+        fb = "" if exact else ("explode-fallback/" if shear_fallback(s["path"]) else "")
         for k in ("color", "pen", "layer", "ltype"):
             if g[k] != s[k]:
-                ctx.fail(f"props/{k}/{docid}/{lay}/{int(export)}/{i}",
+                ctx.fail(f"{fb}props/{k}/{docid}/{lay}/{int(export)}/{i}",
                          f"{docid} {lay} export={export} primitive {i} ({g['dxftype']}): {k} = {g[k]!r}, the document defines {s[k]!r}", rep)
         if abs(g["lw"] - float(s["lw"])) > 1e-12:
-            ctx.fail(f"props/lineweight/{docid}/{lay}/{int(export)}/{i}",
+            ctx.fail(f"{fb}props/lineweight/{docid}/{lay}/{int(export)}/{i}",
                      f"{docid} {lay} primitive {i}: lineweight {g['lw']} expected {float(s['lw'])}", rep)
         bad = len(g["pts"]) != len(s["pts"]) or any(
             not (_close(a[0], float(b[0])) and _close(a[1], float(b[1]))) for a, b in zip(g["pts"], s["pts"]))
         if not bad and g["kind"] == "curve":
             bad = not circle_ok(g["path"], s)
         if bad:
-            cls = "nested-rotated-insert-in-nonuniform-scale" if hazard(s["path"]) else "other"
-            ctx.fail(f"geom/{cls}/{docid}/{lay}/{int(export)}/{i}",
+            ctx.fail(f"geom/{docid}/{lay}/{int(export)}/{i}",
                      f"{docid} {lay} primitive {i} ({g['dxftype']} on layer {g['layer']}, nesting depth {len(s['path'])}): drawn at "
                      f"{[(round(x, 6), round(y, 6)) for x, y in g['pts'][:4]]}, world geometry is "
                      f"{[(round(float(x), 6), round(float(y), 6)) for x, y in s['pts'][:4]]}", rep)
@@ -942,7 +984,7 @@ def circle_ok(path, s):
 
 
 def oracle(ctx):
-    n = ctx.n(250, 4000)
+    n = ctx.n(190, 4000)
     plan = [("quarter", n), ("safe", n), ("angle", n), ("angle-any", n // 2)]
     json_every, dash_every = 3, 4
     k = 0
@@ -1062,9 +1104,11 @@ def dash_check(ctx, docid, key, desc, doc, lay, export, spec):
         ctx.fail(f"dash/count/{docid}/{lay}", f"LinePolicy.ACCURATE: {len(got)} records, expected {len(spec)}", rep)
         return
     for i, (g, s) in enumerate(zip(got, spec)):
+        if shear_fallback(s["path"]):
+            continue  # F20: properties below an exploded (sheared) nested INSERT are reported by O1
         if (g["color"], g["layer"], g["ltype"]) != (s["color"], s["layer"], s["ltype"]):
             ctx.fail(f"dash/props/{docid}/{lay}/{i}", f"LinePolicy.ACCURATE primitive {i}: properties differ", rep)
-        if g["kind"] != "lines" or s["kind"] not in ("line", "path") or hazard(s["path"]):
+        if g["kind"] != "lines" or s["kind"] not in ("line", "path"):
             continue
         ctx.hist("O3 dashed", "dashed-" + s["kind"])
         exp = [(float(x), float(y)) for x, y in s["pts"]]
